@@ -19,34 +19,48 @@ import (
 type replayEntry struct {
 	Match   string `json:"match"`   // regexp on the obligation's base name
 	Dir     string `json:"dir"`     // package directory relative to /repo ("." for the root package)
-	File    string `json:"file"`    // test file relative to /verif/replay
+	File    string `json:"file"`    // test file relative to /verif/replay (or use Files)
+	Files   []string `json:"files"` // glob patterns relative to /verif/replay: all matching files are injected together
 	Run     string `json:"run"`     // -run pattern
+	Skip    string `json:"skip"`    // -skip pattern (tests that fail on the unchanged tree for a listed known finding)
 	Comment string `json:"comment"`
 }
 
 type replayer struct {
+	next    []*replayer
 	name    string
 	entry   replayEntry
 	repoDir string
 	verif   string
 }
 
+// replayFor returns the replay batteries registered for an obligation, most specific first, wrapped as one
+// replayer that stops at the first battery that reproduces.
 func replayFor(o *Obligation, repoDir, verifDir string) *replayer {
 	var entries []replayEntry
 	if err := readJSON(filepath.Join(verifDir, "replay", "registry.json"), &entries); err != nil {
 		return nil
 	}
 	base := BaseName(o.Name)
+	var chain []*replayer
 	for _, e := range entries {
 		re, err := regexp.Compile(e.Match)
 		if err != nil {
 			continue
 		}
 		if re.MatchString(base) {
-			return &replayer{name: e.File + " -run " + e.Run, entry: e, repoDir: repoDir, verif: verifDir}
+			name := e.File
+			if name == "" {
+				name = strings.Join(e.Files, ",")
+			}
+			chain = append(chain, &replayer{name: name + " -run " + e.Run, entry: e, repoDir: repoDir, verif: verifDir})
 		}
 	}
-	return nil
+	if len(chain) == 0 {
+		return nil
+	}
+	chain[0].next = chain[1:]
+	return chain[0]
 }
 
 type replayResult struct {
@@ -58,12 +72,25 @@ type replayResult struct {
 var replayCache = map[string]replayResult{}
 
 func (r *replayer) run() (string, bool, error) {
-	if c, ok := replayCache[r.name]; ok {
-		return c.out, c.failed, c.err
+	var outs []string
+	var lastErr error
+	for _, x := range append([]*replayer{r}, r.next...) {
+		c, ok := replayCache[x.name]
+		if !ok {
+			out, failed, err := x.runOnce()
+			c = replayResult{out, failed, err}
+			replayCache[x.name] = c
+		}
+		outs = append(outs, "== battery "+x.name+"\n"+c.out)
+		if c.err != nil {
+			lastErr = c.err
+			continue
+		}
+		if c.failed {
+			return strings.Join(outs, "\n"), true, nil
+		}
 	}
-	out, failed, err := r.runOnce()
-	replayCache[r.name] = replayResult{out, failed, err}
-	return out, failed, err
+	return strings.Join(outs, "\n"), false, lastErr
 }
 
 func (r *replayer) runOnce() (string, bool, error) {
@@ -72,17 +99,32 @@ func (r *replayer) runOnce() (string, bool, error) {
 		return "", false, err
 	}
 	defer os.RemoveAll(tmp)
-	src := filepath.Join(r.verif, "replay", r.entry.File)
-	dst := filepath.Join(r.repoDir, r.entry.Dir, "zz_govc_replay_test.go")
-	ov := map[string]map[string]string{"Replace": {dst: src}}
+	rep := map[string]string{}
+	var files []string
+	if r.entry.File != "" {
+		files = append(files, filepath.Join(r.verif, "replay", r.entry.File))
+	}
+	for _, g := range r.entry.Files {
+		m, _ := filepath.Glob(filepath.Join(r.verif, "replay", g))
+		files = append(files, m...)
+	}
+	for i, f := range files {
+		rep[filepath.Join(r.repoDir, r.entry.Dir, fmt.Sprintf("zz_govc_replay_%d_test.go", i))] = f
+	}
+	ov := map[string]map[string]string{"Replace": rep}
 	b, _ := json.Marshal(ov)
 	ovFile := filepath.Join(tmp, "overlay.json")
 	if err := os.WriteFile(ovFile, b, 0o644); err != nil {
 		return "", false, err
 	}
-	ctx, cancel := context.WithTimeout(context.Background(), 120*time.Second)
+	ctx, cancel := context.WithTimeout(context.Background(), 150*time.Second)
 	defer cancel()
-	cmd := exec.CommandContext(ctx, "go", "test", "-overlay", ovFile, "-vet=off", "-count=1", "-timeout", "60s", "-run", r.entry.Run, "./"+r.entry.Dir)
+	args := []string{"test", "-overlay", ovFile, "-vet=off", "-count=1", "-timeout", "90s", "-run", r.entry.Run}
+	if r.entry.Skip != "" {
+		args = append(args, "-skip", r.entry.Skip)
+	}
+	args = append(args, "./"+r.entry.Dir)
+	cmd := exec.CommandContext(ctx, "go", args...)
 	cmd.Dir = r.repoDir
 	cmd.Env = append(os.Environ(), goEnv...)
 	cmd.Env = append(cmd.Env, "GOCACHE="+filepath.Join(tmp, "gocache"))
